@@ -101,7 +101,10 @@ impl<T: Elem> InPort for Feeder<T> {
             .iter()
             .map(|(p, k, v)| {
                 // key codes >= 100 are boolean tags (value != 0 = true)
-                if *k >= 100 {
+                if *k == 200 {
+                    // the tag CorrelateAccessCodeTag puts on the last bit of the IL2P sync word
+                    Tag::new(*p, "sync", TagValue::U64(*v))
+                } else if *k >= 100 {
                     Tag::new(*p, format!("k{k}"), TagValue::Bool(*v != 0))
                 } else {
                     Tag::new(*p, format!("k{k}"), TagValue::U64(*v))
@@ -200,6 +203,8 @@ pub struct InSpec {
     pub m: u64,
     pub tbl: Vec<u64>,
     pub tags: Vec<(usize, u64, u64)>,
+    /// explicit data instead of the generated one (self-checking mode only: the model is not asked)
+    pub fixed: Option<Vec<u64>>,
 }
 
 #[derive(Clone, Copy, Debug)]
@@ -309,7 +314,7 @@ pub fn run_case_full(mut rig: Rig, ins: &[InSpec], acts: &[Act], adaptive_flush:
     let mut out_used: Vec<usize> = vec![0; rig.outs.len()];
     let mut calls: Vec<CallRec> = Vec::new();
     let mut closed = vec![false; rig.ins.len()];
-    let data: Vec<Vec<u64>> = ins.iter().map(|i| gen_data(i.len, i.seed, i.m, &i.tbl)).collect();
+    let data: Vec<Vec<u64>> = ins.iter().map(|i| i.fixed.clone().unwrap_or_else(|| gen_data(i.len, i.seed, i.m, &i.tbl))).collect();
     let mut fed = vec![0usize; ins.len()];
     let mut pkt_next = vec![0usize; ins.len()];
     let mut collected: Vec<Vec<u64>> = vec![vec![]; rig.outs.len()];
